@@ -11,8 +11,18 @@
 From Coq Require Import Reals List.
 From SM Require Import Num NumR.
 From SM.specs Require Import C10_spec.
-From SM.proofs Require Import Locality.
+From SM Require Import Engine.
+From SM.proofs Require Import Locality ModelCorollaries StepSpec.
 
 Theorem C10_locality : forall U P g st st', locality U P g st st'.
 Proof. exact locality_proof. Qed.
 Print Assumptions C10_locality.
+
+(* on the model: two steps of a valid network from states agreeing on a segment's neighbourhood return the same
+   value for it (regenerated engines) *)
+Theorem C10_model_locality_numpy : model_locality (@np_engine R NumR).
+Proof. exact (model_locality_proof _ np_step_is_METANET). Qed.
+Print Assumptions C10_model_locality_numpy.
+Theorem C10_model_locality_casadi : model_locality (@cs_engine R NumR).
+Proof. exact (model_locality_proof _ cs_step_is_METANET). Qed.
+Print Assumptions C10_model_locality_casadi.
